@@ -54,6 +54,12 @@ CHECKS["C11"] = ("exploration", "schedule-driven PBT (generated task programs x 
 CHECKS["C12"] = ("exploration", "model-based sequential histories plus schedule-driven PBT (exhaustive schedules for 2-3 tasks) with lock doubles, deletion, failure and cancellation",
   "Sequential await / take-placeholder / del / failing-getter histories on two instances against an absent|value model (getter runs iff absent, identity-stable value); concurrent awaiters under generated and enumerated schedules: every awaiter gets a returned object; with a lock exactly one run returns, runs never overlap, all share the value; locks free and balanced after cancelling the holder; later accesses served from the cache.",
   "with a deleting task only recomputation is asserted; without a lock the documented multiple runs are accepted", "4/C12")
+CHECKS["C15"] = ("exploration", "schedule-driven PBT of decorated calls (generated and exhaustive schedules), per-call pairing invariants plus differential vs contextlib decorators",
+  "Coroutine functions decorated with contextmanager-made managers and ContextDecorator subclasses are called sequentially and concurrently under generated schedules (all schedules for 2 tasks in small configurations) with suspensions in enter/body/exit, raising bodies, suppression and one cancellation; per call: one enter, body, one exit in order, the exit receives the body's exception object, result/exception semantics, a distinct generator per call; outcomes equal those of contextlib.asynccontextmanager / AsyncContextDecorator under the same schedule.",
+  "class managers are written concurrency-safe (documented precondition); CPython 3.12 contextlib is the reference", "4/C15")
+CHECKS["C17"] = ("exploration", "hand-driven token protocol (send and throw at every suspension), zero-suspension runs for synchronous arguments, asyncio loop traps in-process and in a fresh subprocess",
+  "Every operation is driven with send/throw by hand: only tokens of the doubles may reach the loop, each double gets back exactly its reply, an exception thrown at ANY suspension reaches the awaitable suspended there, operations complete; all-synchronous arguments give zero suspensions for every tool, aggregation and adapter; asyncio's loop accessors / Lock / sleep / Future are replaced by recording traps during all runs and before import in a subprocess battery of generated operations.",
+  "'every event loop' approximated by a hand-driven loop and the no-asyncio subprocess; trio/asyncio themselves are not run", "4/C17")
 REASONS = {}
 props = [json.loads(l)["id"] for l in open(os.path.join(HERE, "properties.jsonl"))]
 checks = []
